@@ -275,5 +275,7 @@ AsciiCompatible(m, mt) ==
   mt = "poly" \/ (mt = "tet" /\ AllFaceVal(m, 3) /\ AllCellVal(m, 4)) \/ (mt = "hex" /\ AllFaceVal(m, 4) /\ AllCellVal(m, 6))
 
 (* a reader may fail with an allocation error only if the text declares a large size *)
-AsciiDeclaresLargeSize(b) == \E i \in 1 .. Len(b) - 7 : \A j \in 0 .. 7 : IsDigit(b[i + j])
+AsciiDeclaresLargeSize(b) ==
+  \/ \E i \in 1 .. Len(b) - 7 : \A j \in 0 .. 7 : IsDigit(b[i + j])
+  \/ \E i \in 1 .. Len(b) - 1 : b[i] = 45 /\ IsDigit(b[i + 1])       \* a negative count is read as a huge unsigned one
 =============================================================================
